@@ -31,9 +31,13 @@ theorem C03_registry_refines (ops : List RegOp) :
     ∧ (Registry.run lower ettl ops).services.map Svc.clearMemo = RegSpec.run lower ops :=
   ⟨(run_spec lower ettl ops).inv, (run_spec lower ettl ops).refines⟩
 
-/-- After any history, any further operation returns normally — except `register` of a name that is
-registered, which raises `ServiceNameAlreadyRegistered` and changes nothing.  (No `KeyError`/`ValueError`
-from the index bookkeeping, whatever the history.) -/
+/-- After any history, any further operation **on `ServiceInfo` objects that have a server** returns normally — except
+`register` of a name that is registered, which raises `ServiceNameAlreadyRegistered` and changes nothing.  (No
+`KeyError`/`ValueError` from the index bookkeeping, whatever the history.)  The quantifier is the model's: `Svc.server : String`,
+i.e. what `set_server_if_missing` guarantees on the `async_register_service` / `async_unregister_service` paths.  `_add`'s
+`assert info.server_key is not None` is a raise site *outside* this model: `async_update_service` does not call
+`set_server_if_missing`, and `registry.async_update` with a server-less info raises `AssertionError` after `_remove` has dropped
+the registered service (finding D26, reproduced and driven on the simulated host by the harness). -/
 theorem C03_only_already_registered (ops : List RegOp) (op : RegOp) :
     (∃ r, (Registry.run lower ettl ops).stepE lower ettl op = .ok r)
     ∨ (∃ s, op = .register s ∧ (∃ o ∈ RegSpec.run lower ops, lower o.name = lower s.name)
